@@ -1,9 +1,447 @@
-/- C11 - model (stub: not built yet) -/
+/-
+C11 - model of `notation.SignOCI` (notation.go): option validation, reference handling
+(`orasRegistry.ParseReference`), `Repository.Resolve`, digest pinning,
+`addUserMetadataToDescriptor`, the signer call, `generateAnnotations`
+(`envelope.AnnotationX509ChainThumbprint`, `envelope.SigningTime`) and
+`Repository.PushSignature`, over *sequences* of calls against one repository.
+
+Go maps are reference objects: the descriptor `Resolve` returns may carry the repository's own
+annotation map (oci.Store and memory.Store hand out their tag-resolver state). To make
+"writes into the repository's map" expressible, maps live in a small heap: a map value is an
+address (`Option Nat`, `none` = nil map), its contents are looked up in `Heap.cells`.
+`addUserMetadataToDescriptor` allocates a fresh cell and copies when - and only when - the
+extracted facts `c11MergeAllocatesFreshMap` / `c11MergeCopiesOld` say the Go code does; otherwise
+the model writes in place, as the code before commit 303ff26 did.
+-/
 import NotationModel.Basic
+import NotationModel.Generated.C11
 open Lean
 
 namespace NotationModel.C11
 
-def judge (_ : Json) : Except String Json := .error "C11: model not built yet"
+/-! ### text order, association maps, heap -/
+
+/-- byte-wise (= code point) order on text, as Go's `sort.Strings` -/
+def tlt : Text → Text → Bool
+  | [], [] => false
+  | [], _ :: _ => true
+  | _ :: _, [] => false
+  | a :: as, b :: bs =>
+    if a.toNat < b.toNat then true else if b.toNat < a.toNat then false else tlt as bs
+
+/-- contents of a Go `map[string]string`, kept sorted by key -/
+abbrev AnnMap := List (Text × Text)
+
+/-- `m[k] = v` on contents -/
+def put (k v : Text) : AnnMap → AnnMap
+  | [] => [(k, v)]
+  | (k', v') :: r =>
+    if k == k' then (k, v) :: r
+    else if tlt k k' then (k, v) :: (k', v') :: r
+    else (k', v') :: put k v r
+
+/-- `v, ok := m[k]` on contents -/
+def look (k : Text) : AnnMap → Option Text
+  | [] => none
+  | (k', v) :: r => if k == k' then some v else look k r
+
+/-- keys strictly increasing (the canonical form the harness emits) -/
+def sortedKeys : AnnMap → Bool
+  | [] => true
+  | [_] => true
+  | (k, _) :: (k', v') :: r => tlt k k' && sortedKeys ((k', v') :: r)
+
+structure Heap where
+  cells : List AnnMap
+  deriving DecidableEq, Repr
+
+/-- a map value: `none` is the nil map -/
+abbrev MapRef := Option Nat
+
+def Heap.read (h : Heap) : MapRef → AnnMap
+  | none => []
+  | some r => h.cells.getD r []
+
+def Heap.alloc (h : Heap) (m : AnnMap) : Heap × Nat := ({ cells := h.cells ++ [m] }, h.cells.length)
+
+/-- `m[k] = v` through a reference (Go panics on a nil map; the model leaves the heap alone -
+`run` never gets there, see `Props.write_target_is_a_map`) -/
+def Heap.write (h : Heap) (r : MapRef) (k v : Text) : Heap :=
+  match r with
+  | none => h
+  | some a => { cells := h.cells.set a (put k v (h.read (some a))) }
+
+/-! ### input -/
+
+/-- the artifact reference handed to `SignOCI` -/
+inductive Ref
+  | tag               -- "v1"                         (not a full reference: passed on unchanged)
+  | fullTag           -- "reg.example/repo:v1"
+  | hostPortTag       -- "localhost:5000/repo:v1"
+  | digest            -- "sha256:<artifact>"
+  | fullDigest        -- "reg.example/repo@sha256:<artifact>"
+  | fullTagDigest     -- "reg.example/repo:v1@sha256:<artifact>"  (tag dropped by ParseReference)
+  | otherDigest       -- "sha256:<another digest>"
+  | fullOtherDigest   -- "reg.example/repo@sha256:<another digest>"
+  | otherAlgDigest    -- "reg.example/repo@sha512:<digest of the same bytes>"
+  | noRef             -- "reg.example/repo"           (valid reference without tag or digest)
+  | bareRepo          -- "repo"                       (not a full reference; no such tag)
+  | unknownTag        -- "reg.example/repo:missing"
+  deriving DecidableEq, Repr, FromJson, ToJson
+
+/-- what `Repository.Resolve` is asked -/
+inductive Arg | tag | digest | otherDigest | empty | unknown
+  deriving DecidableEq, Repr, FromJson, ToJson
+
+/-- `SignerSignOptions` / arguments as far as `validateSignArguments` looks at them -/
+inductive Opts | jws | cose | nilSigner | nilRepo | negativeExpiry | subSecondExpiry | emptyMediaType | unsupportedMediaType
+  deriving DecidableEq, Repr, FromJson, ToJson
+
+/-- what the signer answers -/
+inductive SignerKind
+  | ok          -- envelope + SignerInfo
+  | fails       -- error
+  | nilInfo     -- envelope, nil SignerInfo
+  | noTime      -- SignerInfo without signing time
+  deriving DecidableEq, Repr, FromJson, ToJson
+
+/-- what `PushSignature` answers -/
+inductive PushKind
+  | ok
+  | fails
+  | indexDeleteFails   -- remote.ReferrersError with IsReferrersIndexDelete: pushed, but an error is returned
+  deriving DecidableEq, Repr, FromJson, ToJson
+
+structure Art where
+  mediaType : Text
+  digest : Text
+  size : Nat
+  ann : AnnMap            -- annotations the repository holds for the artifact (what resolving the tag shows)
+  deriving DecidableEq, Repr, FromJson, ToJson
+
+structure Repo where
+  aliased : Bool          -- Resolve hands out its own annotation map object (oci.Store, memory.Store), not a copy
+  plainByDigest : Bool    -- resolving a digest yields the plain descriptor without annotations (oci.Store)
+  anyDigest : Bool        -- any well-formed digest resolves to the artifact (a registry that ignores the digest)
+  push : PushKind
+  deriving DecidableEq, Repr, FromJson, ToJson
+
+structure SignerCfg where
+  kind : SignerKind
+  thumbs : List Text      -- lower-case hex SHA-256 of each certificate of the signing chain, leaf first
+  time : Nat              -- signing time, Unix seconds
+  pluginAnn : AnnMap      -- the signer's PluginAnnotations() (empty: none / nil)
+  deriving DecidableEq, Repr, FromJson, ToJson
+
+structure Call where
+  ref : Ref
+  md : AnnMap           -- SignOptions.UserMetadata
+  opts : Opts
+  deriving DecidableEq, Repr, FromJson, ToJson
+
+structure Input where
+  backend : String        -- which repository the harness concretised (mock, mem, oci, ociReopened); not used by the model
+  art : Art
+  repo : Repo
+  signer : SignerCfg
+  pluginConfig : AnnMap   -- SignerSignOptions.PluginConfig, the same map for every call
+  calls : List Call
+  deriving Repr, FromJson, ToJson
+
+/-! ### observables -/
+
+structure DescObs where
+  mediaType : Text
+  digest : Text
+  size : Nat
+  ann : AnnMap            -- sorted by key; nil and empty maps are not distinguished
+  deriving DecidableEq, Repr, FromJson, ToJson
+
+/-- the artifact descriptor `SignOCI` returned -/
+inductive Returned
+  | resolved    -- the resolved descriptor
+  | zero        -- the zero descriptor
+  | other       -- anything else
+  | panicked    -- the call panicked
+  deriving DecidableEq, Repr, FromJson, ToJson
+
+structure CallObs where
+  ok : Bool                      -- SignOCI returned no error
+  resolveArg : Option Arg        -- what Resolve was asked (none: not called)
+  signed : Option DescObs        -- the descriptor the signer received
+  subject : Option DescObs       -- the subject PushSignature received
+  pushAnn : Option AnnMap        -- the annotations PushSignature received
+  returned : Returned
+  repoViewSame : Bool            -- afterwards the repository resolves tag and digest exactly as before the first call
+  handedSame : Bool              -- every descriptor Resolve has handed out so far still has the contents it had then
+  optsSame : Bool                -- UserMetadata (of every call) and PluginConfig maps have their original contents
+  sigCount : Nat                 -- signatures attached to the artifact afterwards
+  deriving DecidableEq, Repr, FromJson, ToJson
+
+structure Obs where
+  calls : List CallObs
+  deriving DecidableEq, Repr, FromJson, ToJson
+
+/-! ### the pieces of SignOCI -/
+
+/-- `orasRegistry.ParseReference` + `artifactRef = ref.Reference` when it parses -/
+def refArg : Ref → Arg
+  | .tag | .fullTag | .hostPortTag => .tag
+  | .digest | .fullDigest | .fullTagDigest => .digest
+  | .otherDigest | .fullOtherDigest | .otherAlgDigest => .otherDigest
+  | .noRef => .empty
+  | .bareRepo | .unknownTag => .unknown
+
+def isReserved (k : Text) : Bool := Facts.c11ReservedPrefixes.any (fun p => p.isPrefixOf k)
+
+def optsValid : Opts → Bool
+  | .jws | .cose => true
+  | _ => false
+
+/-- addresses fixed at set-up -/
+structure Env where
+  repoAnn : Nat      -- the repository's annotation map of the artifact
+  cfg : Nat          -- PluginConfig
+  metaBase : Nat     -- UserMetadata of call j lives at metaBase + j
+  deriving Repr
+
+structure World where
+  heap : Heap
+  handed : List (MapRef × AnnMap)   -- annotation maps of the descriptors Resolve handed out, with their contents then
+  sigCount : Nat
+  deriving Repr
+
+/-- set-up: cell 0 repository, 1 PluginConfig, 2+j UserMetadata of call j -/
+def env : Env := { repoAnn := 0, cfg := 1, metaBase := 2 }
+
+def initCells (i : Input) : List AnnMap := [i.art.ann, i.pluginConfig] ++ i.calls.map (·.md)
+
+def initWorld (i : Input) : World :=
+  { heap := { cells := initCells i }, handed := [], sigCount := 0 }
+
+/-- `Repository.Resolve`: `none` = error, otherwise the annotation map of the descriptor returned -/
+def resolve (r : Repo) (h : Heap) : Arg → Option (Heap × MapRef)
+  | .tag => some (handOut h)
+  | .digest => some (if r.plainByDigest then (h, none) else handOut h)
+  | .otherDigest => if r.anyDigest then some (if r.plainByDigest then (h, none) else handOut h) else none
+  | .empty | .unknown => none
+where
+  handOut (h : Heap) : Heap × MapRef :=
+    if r.aliased then (h, some env.repoAnn)
+    else let (h', a) := h.alloc (h.read (some env.repoAnn)); (h', some a)
+
+/-- the loop of `addUserMetadataToDescriptor` (keys visited in sorted order; Go's order is random,
+which changes neither success nor - on success - the result: `Props.merge_order_irrelevant`) -/
+def mergeLoop (h : Heap) (ann : MapRef) : AnnMap → Heap × Bool
+  | [] => (h, true)
+  | (k, v) :: rest =>
+    if isReserved k then (h, false)
+    else if (look k (h.read ann)).isSome then (h, false)
+    else mergeLoop (h.write ann k v) ann rest
+
+/-- does the Go code give the merge a map of its own? (extracted guard-presence facts) -/
+def mergeCopies : Bool :=
+  Facts.c11MergeDescByValue && Facts.c11MergeAllocatesFreshMap && Facts.c11MergeCopiesOld
+
+/-- `addUserMetadataToDescriptor`: new heap, annotation map of `descToSign`, success -/
+def addUserMetadata (h : Heap) (ann : MapRef) (md : AnnMap) : Heap × MapRef × Bool :=
+  if md.isEmpty then (h, ann, true)
+  else
+    let (h1, ann1) :=
+      if mergeCopies then let (h', a) := h.alloc (h.read ann); (h', some a)
+      else (h, ann)
+    let (h2, ok) := mergeLoop h1 ann1 md
+    (h2, ann1, ok)
+
+def digit (n : Nat) : Char := Char.ofNat (48 + n % 10)
+def d2 (n : Nat) : Text := [digit (n / 10), digit n]
+def d4 (n : Nat) : Text := [digit (n / 1000), digit (n / 100), digit (n / 10), digit n]
+
+/-- `time.Unix(t, 0).UTC().Format(time.RFC3339)` for years 1970..9999 (civil-from-days) -/
+def rfc3339 (t : Nat) : Text :=
+  let days := t / 86400
+  let s := t % 86400
+  let z := days + 719468
+  let era := z / 146097
+  let doe := z % 146097
+  let yoe := (doe - doe / 1460 + doe / 36524 - doe / 146096) / 365
+  let doy := doe - (365 * yoe + yoe / 4 - yoe / 100)
+  let mp := (5 * doy + 2) / 153
+  let d := doy - (153 * mp + 2) / 5 + 1
+  let m := if mp < 10 then mp + 3 else mp - 9
+  let y := yoe + era * 400 + (if m ≤ 2 then 1 else 0)
+  d4 y ++ ['-'] ++ d2 m ++ ['-'] ++ d2 d ++ ['T'] ++ d2 (s / 3600) ++ [':'] ++ d2 (s % 3600 / 60) ++ [':'] ++ d2 (s % 60) ++ ['Z']
+
+/-- `json.Marshal([]string)` of hex strings (`null` for the nil slice) -/
+def jsonArray : List Text → Text
+  | [] => "null".toList
+  | t :: ts => ['['] ++ quote t ++ (ts.map (fun x => [','] ++ quote x)).flatten ++ [']']
+where quote (t : Text) : Text := ['"'] ++ t ++ ['"']
+
+/-- one step of the trace of a call -/
+structure Trace where
+  ok : Bool := false
+  resolveArg : Option Arg := none
+  signed : Option AnnMap := none
+  subject : Option AnnMap := none
+  pushAnn : Option AnnMap := none
+  returnedResolved : Bool := false
+  deriving Repr
+
+/-- `generateAnnotations` + `PushSignature` (after the signer has answered) -/
+def annotateAndPush (i : Input) (w : World) (t : Trace) (resolved : MapRef) : World × Trace :=
+  match i.signer.kind with
+  | .fails => (w, t)
+  | .nilInfo => (w, t)
+  | k =>
+    -- the map `PluginAnnotations()` returns is made by the signer during `Sign` (PluginSigner stores the
+    -- plugin's response); when it is nil, `generateAnnotations` makes one: a new cell either way
+    let (h1, a) := w.heap.alloc i.signer.pluginAnn
+    let ann : MapRef := some a
+    let h2 := h1.write ann Facts.c11ThumbprintKey (jsonArray i.signer.thumbs)
+    if k == .noTime then ({ w with heap := h2 }, t)
+    else
+      let h3 := h2.write ann Facts.c11CreatedKey (rfc3339 i.signer.time)
+      let t' := { t with subject := some (h3.read resolved), pushAnn := some (h3.read ann) }
+      match i.repo.push with
+      | .fails => ({ w with heap := h3 }, t')
+      | .indexDeleteFails => ({ w with heap := h3, sigCount := w.sigCount + 1 }, { t' with returnedResolved := true })
+      | .ok => ({ w with heap := h3, sigCount := w.sigCount + 1 }, { t' with ok := true, returnedResolved := true })
+
+/-- one `SignOCI` call -/
+def signOCI (i : Input) (w : World) (c : Call) : World × Trace :=
+  if !optsValid c.opts then (w, {})
+  else
+    let arg := refArg c.ref
+    let t : Trace := { resolveArg := some arg }
+    match resolve i.repo w.heap arg with
+    | none => (w, t)
+    | some (h1, resolved) =>
+      let w1 : World := { w with heap := h1, handed := w.handed ++ [(resolved, h1.read resolved)] }
+      -- artifactRef != resolved digest and digest.Parse(artifactRef) succeeds
+      if arg == .otherDigest then (w1, t)
+      else
+        let (h2, toSign, ok) := addUserMetadata h1 resolved c.md
+        let w2 := { w1 with heap := h2 }
+        if !ok then (w2, t)
+        else annotateAndPush i w2 { t with signed := some (h2.read toSign) } resolved
+
+def mkDesc (a : Art) (ann : AnnMap) : DescObs :=
+  { mediaType := a.mediaType, digest := a.digest, size := a.size, ann := ann }
+
+/-- what the harness can see of a call and of the world after it -/
+def observe (i : Input) (w : World) (t : Trace) : CallObs :=
+  { ok := t.ok, resolveArg := t.resolveArg,
+    signed := t.signed.map (mkDesc i.art), subject := t.subject.map (mkDesc i.art), pushAnn := t.pushAnn,
+    returned := if t.returnedResolved then .resolved else .zero,
+    repoViewSame := w.heap.read (some env.repoAnn) == i.art.ann,
+    handedSame := w.handed.all (fun (r, snap) => w.heap.read r == snap),
+    optsSame := w.heap.read (some env.cfg) == i.pluginConfig &&
+      (w.heap.cells.drop env.metaBase).take i.calls.length == i.calls.map (·.md),
+    sigCount := w.sigCount }
+
+def runCalls (i : Input) : World → List Call → List CallObs
+  | _, [] => []
+  | w, c :: cs =>
+    let (w', t) := signOCI i w c
+    observe i w' t :: runCalls i w' cs
+
+def run (i : Input) : Obs := { calls := runCalls i (initWorld i) i.calls }
+
+/-! ### specification (over the input and the observables only) -/
+
+/-- keys pairwise different (true of anything that came out of a Go map) -/
+def distinctKeys : AnnMap → Bool
+  | [] => true
+  | (k, _) :: r => !(r.any (fun kv => kv.1 == k)) && distinctKeys r
+
+/-- well-formedness of an input: every UserMetadata map has pairwise different keys -/
+def wf (i : Input) : Bool := i.calls.all (fun c => distinctKeys c.md)
+
+/-- the annotations the repository shows for what the reference resolves to -/
+def resolvedAnn (i : Input) (c : Call) : AnnMap :=
+  match refArg c.ref with
+  | .tag => i.art.ann
+  | _ => if i.repo.plainByDigest then [] else i.art.ann
+
+/-- resolved annotations + user metadata -/
+def merged (base md : AnnMap) : AnnMap := md.foldl (fun m kv => put kv.1 kv.2 m) base
+
+def resolvable (i : Input) (c : Call) : Bool :=
+  match refArg c.ref with
+  | .tag | .digest => true
+  | .otherDigest => i.repo.anyDigest
+  | _ => false
+
+def digestMismatch (c : Call) : Bool := refArg c.ref == .otherDigest
+def hasReserved (c : Call) : Bool := c.md.any (fun kv => isReserved kv.1)
+def collides (i : Input) (c : Call) : Bool := c.md.any (fun kv => (look kv.1 (resolvedAnn i c)).isSome)
+
+/-- one of the three refusals the property names -/
+def refused (i : Input) (c : Call) : Bool := digestMismatch c || hasReserved c || collides i c
+
+/-- everything before the signer passes -/
+def reachesSigner (i : Input) (c : Call) : Bool :=
+  optsValid c.opts && resolvable i c && !refused i c
+
+/-- everything before the push passes -/
+def reachesPush (i : Input) (c : Call) : Bool := reachesSigner i c && i.signer.kind == .ok
+
+/-- does the call succeed? A function of the input and the call alone - not of the history. -/
+def expectedOk (i : Input) (c : Call) : Bool := reachesPush i c && i.repo.push == .ok
+
+def pushes (i : Input) (c : Call) : Bool := reachesPush i c && i.repo.push != .fails
+
+def expectedPushAnn (i : Input) : AnnMap :=
+  put Facts.c11CreatedKey (rfc3339 i.signer.time) (put Facts.c11ThumbprintKey (jsonArray i.signer.thumbs) i.signer.pluginAnn)
+
+/-- the per-call clauses; `before` = signatures attached before the call -/
+structure CallVerdict where
+  signsResolvedPlusMetadata : Bool
+  subjectIsResolved : Bool
+  pushedAnnotationsExact : Bool
+  refusals : Bool
+  frame : Bool
+  oneSignature : Bool
+  succeedsIndependentOfHistory : Bool
+  resolveAsked : Bool
+
+def callVerdict (i : Input) (c : Call) (before : Nat) (o : CallObs) : CallVerdict :=
+  { signsResolvedPlusMetadata :=
+      o.signed == (if reachesSigner i c then some (mkDesc i.art (merged (resolvedAnn i c) c.md)) else none),
+    subjectIsResolved :=
+      o.subject == (if reachesPush i c then some (mkDesc i.art (resolvedAnn i c)) else none) &&
+      o.returned == (if pushes i c then .resolved else .zero),
+    pushedAnnotationsExact :=
+      o.pushAnn == (if reachesPush i c then some (expectedPushAnn i) else none),
+    refusals :=
+      !(optsValid c.opts && resolvable i c && refused i c) ||
+        (!o.ok && o.signed.isNone && o.subject.isNone && o.pushAnn.isNone && o.sigCount == before),
+    frame := o.repoViewSame && o.handedSame && o.optsSame,
+    oneSignature := o.sigCount == before + (if pushes i c then 1 else 0) && (!o.ok || o.subject.isSome),
+    succeedsIndependentOfHistory := o.ok == expectedOk i c,
+    resolveAsked := o.resolveArg == (if optsValid c.opts then some (refArg c.ref) else none) }
+
+/-- fold a per-call clause over the sequence, threading the signature count -/
+def allCalls (i : Input) (f : CallVerdict → Bool) : List Call → Nat → List CallObs → Bool
+  | [], _, [] => true
+  | c :: cs, before, o :: os => f (callVerdict i c before o) && allCalls i f cs o.sigCount os
+  | _, _, _ => false
+
+def clauses (i : Input) (o : Obs) : Clauses :=
+  [ ("input_wellformed", wf i),
+    ("one_observation_per_call", o.calls.length == i.calls.length),
+    ("signs_resolved_plus_metadata", allCalls i (·.signsResolvedPlusMetadata) i.calls 0 o.calls),
+    ("subject_is_resolved_descriptor", allCalls i (·.subjectIsResolved) i.calls 0 o.calls),
+    ("pushed_annotations_exact", allCalls i (·.pushedAnnotationsExact) i.calls 0 o.calls),
+    ("refusals", allCalls i (·.refusals) i.calls 0 o.calls),
+    ("frame", allCalls i (·.frame) i.calls 0 o.calls),
+    ("one_signature_per_push", allCalls i (·.oneSignature) i.calls 0 o.calls),
+    ("succeeds_independent_of_history", allCalls i (·.succeedsIndependentOfHistory) i.calls 0 o.calls),
+    ("resolve_asked_for_reference", allCalls i (·.resolveAsked) i.calls 0 o.calls) ]
+
+def Holds (i : Input) (o : Obs) : Bool := (clauses i o).holds
+
+def judge := judgeWith run clauses
 
 end NotationModel.C11
